@@ -158,6 +158,7 @@ def _placement(it, ctx):
 
 
 c.check("placement", _placement)
+c.max_paths = 40000  # all-domains (thorough): one path per subset of the eleven roles and per rejection
 c.raises("GeneratorError")
 c.raises("intelhex.AddressOverlapError")  # cannot happen for disjoint slots (E) - listed so that the table obligation carries it
 
